@@ -334,6 +334,128 @@ func arithFingerprint(prog *Program, pk *packages.Package, node ast.Node, contVa
 		}
 		return true
 	})
+	// nesting depth of every if statement within the cell (an early exit moved into a branch changes when it happens)
+	ifDepth := map[ast.Node]int{}
+	var depthWalk func(n ast.Node, d int)
+	depthWalk = func(n ast.Node, d int) {
+		ast.Inspect(n, func(k ast.Node) bool {
+			if k == n {
+				return true
+			}
+			switch x := k.(type) {
+			case *ast.IfStmt:
+				ifDepth[x] = d
+				depthWalk(x.Body, d+1)
+				if x.Else != nil {
+					depthWalk(x.Else, d+1)
+				}
+				return false
+			case *ast.ForStmt:
+				depthWalk(x.Body, 0) // the depth counts from the innermost loop: `if c { for {..} }` and `for { if c {..} }` are one shape
+				return false
+			case *ast.RangeStmt:
+				depthWalk(x.Body, 0)
+				return false
+			}
+			return true
+		})
+	}
+	depthWalk(node, 0)
+	// an early exit repeated at the end of every branch of an if/else is the same as one exit after it: "all"
+	isExitIf := func(st ast.Stmt, name string) bool {
+		is, ok := st.(*ast.IfStmt)
+		if !ok || is.Else != nil || len(is.Body.List) != 1 {
+			return false
+		}
+		id, ok := ast.Unparen(is.Cond).(*ast.Ident)
+		if !ok || id.Name != name {
+			return false
+		}
+		switch ex := is.Body.List[0].(type) {
+		case *ast.ReturnStmt:
+			return true
+		case *ast.BranchStmt:
+			return ex.Label != nil
+		}
+		return false
+	}
+	hasTopExit := func(list []ast.Stmt, name string) bool {
+		for _, st := range list {
+			if isExitIf(st, name) {
+				return true
+			}
+		}
+		return false
+	}
+	// statements that sit directly in a loop body, in the cell's own statement list or in a branch of the
+	// `last fragment?` test are reached whatever the iteration did before
+	anchored := map[ast.Node]bool{}
+	markList := func(list []ast.Stmt) {
+		for _, st := range list {
+			anchored[st] = true
+		}
+	}
+	ast.Inspect(node, func(n ast.Node) bool {
+		switch x := n.(type) {
+		case *ast.CaseClause:
+			if n == node {
+				markList(x.Body)
+			}
+		case *ast.BlockStmt:
+			if n == node {
+				markList(x.List)
+			}
+		case *ast.ForStmt:
+			markList(x.Body.List)
+		case *ast.RangeStmt:
+			markList(x.Body.List)
+		case *ast.IfStmt:
+			if isLastTest(x.Cond) {
+				markList(x.Body.List)
+				if eb, ok := x.Else.(*ast.BlockStmt); ok {
+					markList(eb.List)
+				}
+			}
+		}
+		return true
+	})
+	exitCover := map[ast.Node]string{} // exit-if statement -> "all" | "some"
+	ast.Inspect(node, func(n ast.Node) bool {
+		is, ok := n.(*ast.IfStmt)
+		if !ok {
+			return true
+		}
+		branches := [][]ast.Stmt{is.Body.List}
+		complete := false
+		if eb, ok := is.Else.(*ast.BlockStmt); ok {
+			branches = append(branches, eb.List)
+			complete = true
+		}
+		for _, br := range branches {
+			for _, st := range br {
+				x, ok := st.(*ast.IfStmt)
+				if !ok {
+					continue
+				}
+				id, ok := ast.Unparen(x.Cond).(*ast.Ident)
+				if !ok || !isExitIf(x, id.Name) {
+					continue
+				}
+				all := complete
+				for _, other := range branches {
+					if !hasTopExit(other, id.Name) {
+						all = false
+					}
+				}
+				if all {
+					exitCover[x] = "all"
+				} else {
+					exitCover[x] = "some"
+				}
+			}
+		}
+		return true
+	})
 	cur := ""
 	add := func(prefix string, n any) {
 		set[cur+prefix+normaliseSkeleton(printNode(prog.Fset, n), contVar)]++
@@ -349,6 +471,12 @@ func arithFingerprint(prog *Program, pk *packages.Package, node ast.Node, contVa
 		switch x := n.(type) {
 		case *ast.AssignStmt:
 			if len(x.Lhs) == 1 && len(x.Rhs) == 1 {
+				// the traversal stack cut back to a mark: S = S[:m]
+				if se, ok := ast.Unparen(x.Rhs[0]).(*ast.SliceExpr); ok && se.Low == nil && se.High != nil && types.ExprString(se.X) == types.ExprString(x.Lhs[0]) {
+					if _, isId := x.Lhs[0].(*ast.Ident); isId && intOnly(se.High) {
+						add("cut ", x)
+					}
+				}
 				// an integer frame pushed on the traversal stack: S = append(S, di|flag)
 				if c, ok := x.Rhs[0].(*ast.CallExpr); ok && len(c.Args) >= 2 && !c.Ellipsis.IsValid() {
 					if fid, ok := c.Fun.(*ast.Ident); ok && fid.Name == "append" && types.ExprString(c.Args[0]) == types.ExprString(x.Lhs[0]) {
@@ -407,6 +535,33 @@ func arithFingerprint(prog *Program, pk *packages.Package, node ast.Node, contVa
 			if intOnly(x.Cond) && !isLastTest(x.Cond) {
 				add("if ", x.Cond)
 			}
+			// `if one { return ... }` / `if one { break done }`: the early exit of the *One forms, with the depth of
+			// if-nesting at which it sits (inside the branch that changed something, or after both branches)
+			if id, ok := ast.Unparen(x.Cond).(*ast.Ident); ok && x.Else == nil && len(x.Body.List) == 1 {
+				if tv := info.TypeOf(id); tv != nil && info.Uses[id] != nil && info.Uses[id].Pos() < node.Pos() { // a flag handed in from outside the cell (the `one` parameter), not a comma-ok result
+					if b, isB := tv.Underlying().(*types.Basic); isB && b.Info()&types.IsBoolean != 0 {
+						// where the exit sits: after the work of the iteration whatever branch it took ("always": directly in
+						// the loop body, or repeated at the end of every branch), or in some branches only
+						where := "always"
+						if !anchored[x] {
+							switch exitCover[x] {
+							case "all":
+								where = "always"
+							default:
+								where = "in some branches"
+							}
+						}
+						switch ex := x.Body.List[0].(type) {
+						case *ast.ReturnStmt:
+							set[cur+fmt.Sprintf("exit-if %s: return (%s)", id.Name, where)] = 1
+						case *ast.BranchStmt:
+							if ex.Label != nil {
+								set[cur+fmt.Sprintf("exit-if %s: %s %s (%s)", id.Name, ex.Tok, ex.Label.Name, where)] = 1
+							}
+						}
+					}
+				}
+			}
 		}
 		return true
 	})
@@ -415,7 +570,7 @@ func arithFingerprint(prog *Program, pk *packages.Package, node ast.Node, contVa
 		if k == "LEN := LEN" || k == "" {
 			continue
 		}
-		if bare := strings.TrimPrefix(strings.TrimPrefix(k, "[last] "), "[inner] "); n > 1 && !strings.HasPrefix(bare, "push ") && !strings.HasPrefix(bare, "for ") {
+		if bare := strings.TrimPrefix(strings.TrimPrefix(k, "[last] "), "[inner] "); n > 1 && !strings.HasPrefix(bare, "push ") && !strings.HasPrefix(bare, "for ") && !strings.HasPrefix(bare, "exit-if ") && !strings.HasPrefix(bare, "cut ") {
 			k = fmt.Sprintf("%s  (x%d)", k, n) // a multiset: a test added next to an equal one is a change
 		}
 		out = append(out, k)
